@@ -1,6 +1,400 @@
 /-
-  C10 — property theorems (stub; to be filled in).
+  C10 — a write touches only permitted, selected columns of exactly the targeted rows.
+
+  Theorems over `Model/WriteSet.lean` (tied to /repo by the correspondence suites perm / sao / stmt of
+  harness/c10.go on every run).  All statements quantify over every schema, every Select/Omit list and every
+  value shape — no bound on the number of fields, names or rows.
 -/
+import GormModel.Model.WriteSet
+import GormModel.Lemmas.WriteSet
 namespace Gorm
+open Gorm.WriteSet
+
+/-! ### every path only emits columns whose `selectColumns` entry is not `false` -/
+
+theorem C10_map_guarded (s : Schema) (sel om : List Col) (sh : Bool) (keys : List (Col × Bool)) (c : Col)
+    (h : c ∈ assignmentsOfMap s sel om sh keys) :
+    (selectAndOmit s sel om false true).1.lookup c ≠ some false := by
+  unfold assignmentsOfMap at h
+  simp only [List.mem_append, List.mem_filterMap] at h
+  rcases h with ⟨kv, _, h⟩ | h
+  · split at h
+    · split at h
+      · split at h
+        · rename_i ha; injection h with h; subst h; exact allowed_ne_false ha
+        · cases h
+      · cases h
+    · split at h
+      · rename_i ha; injection h with h; subst h; exact allowed_ne_false ha
+      · cases h
+  · split at h
+    · cases h
+    · simp only [List.mem_filterMap] at h
+      rcases h with ⟨db, _, h⟩
+      split at h
+      · split at h
+        · rename_i hc; injection h with h; subst h
+          simp only [Bool.and_eq_true, bne_iff_ne, ne_eq] at hc
+          exact hc.2
+        · cases h
+      · cases h
+
+theorem C10_struct_guarded (s upd : Schema) (sel om : List Col) (dim sh : Bool) (nz mnz : List Col) (c : Col)
+    (h : c ∈ (assignmentsOfStruct s upd sel om dim sh nz mnz).1) :
+    (selectAndOmit s sel om false true).1.lookup c ≠ some false := by
+  unfold assignmentsOfStruct at h
+  simp only [List.mem_filterMap] at h
+  rcases h with ⟨db, _, h⟩
+  split at h
+  · cases h
+  · split at h
+    · rename_i hw; injection h with h; subst h; exact (structWrites_guard hw).1
+    · cases h
+
+theorem C10_create_guarded (s : Schema) (sel om : List Col) (isSlice : Bool) (rows : List (List Col)) (c : Col)
+    (h : c ∈ createColumns s sel om isSlice rows) :
+    (selectAndOmit s sel om true false).1.lookup c ≠ some false := by
+  unfold createColumns at h
+  simp only [List.mem_append, List.mem_filterMap] at h
+  rcases h with ⟨db, _, h⟩ | ⟨db, _, h⟩
+  · split at h
+    · cases h
+    · rename_i f hf
+      split at h
+      · rename_i hw; injection h with h; subst h
+        have := (byDBName_some hf).2.1
+        rw [← this]; exact createWrites_guard hw
+      · cases h
+  · split at h
+    · cases h
+    · split at h
+      · rename_i hw; injection h with h; subst h; exact createWritesDefault_guard hw
+      · cases h
+
+theorem C10_createmap_guarded (s : Schema) (sel om : List Col) (keys : List Col) (c : Col)
+    (h : c ∈ createColumnsMap s sel om keys) :
+    (selectAndOmit s sel om true false).1.lookup c ≠ some false := by
+  unfold createColumnsMap at h
+  simp only [List.mem_filterMap] at h
+  rcases h with ⟨k, _, h⟩
+  split at h <;> split at h
+  · rename_i ha; injection h with h; subst h; exact allowed_ne_false ha
+  · cases h
+  · rename_i ha; injection h with h; subst h; exact allowed_ne_false ha
+  · cases h
+
+theorem C10_upsert_guarded (s : Schema) (sel om cols : List Col) (hcols : ∀ c ∈ cols, c ∈ s.dbNames) (c : Col)
+    (h : c ∈ upsertAssignments s sel om cols) :
+    (selectAndOmit s sel om true true).1.lookup c ≠ some false := by
+  unfold upsertAssignments at h
+  simp only [List.mem_append, List.mem_filterMap] at h
+  have key : ∀ cf : Col × FieldSpec,
+      (∃ a, a ∈ cols ∧ (match s.lookUpField a with
+          | some f => if upsertKeeps (selectAndOmit s sel om true true) f = true then some (a, f) else none
+          | none => none) = some cf) →
+      cf.2.dbName = cf.1 ∧ (selectAndOmit s sel om true true).1.lookup cf.2.dbName ≠ some false := by
+    intro cf ⟨a, ha, hm⟩
+    split at hm
+    · rename_i f hl
+      split at hm
+      · rename_i hk; injection hm with hm; subst hm
+        exact ⟨lookUp_of_mem_dbNames (hcols a ha) hl, (upsertKeeps_guard hk).1⟩
+      · cases hm
+    · cases hm
+  rcases h with ⟨cf, hcf, h⟩ | ⟨cf, hcf, h⟩
+  · split at h
+    · injection h with h; subst h; exact (key cf hcf).2
+    · cases h
+  · split at h
+    · cases h
+    · injection h with h; subst h
+      have := key cf hcf
+      rw [← this.1]; exact this.2
+
+/-! ### NEVER DENIED -/
+
+/-- no column of a field lacking UPDATE permission is ever in an UPDATE SET list the model computes —
+    map values (`Update`, `Updates(map)`, `UpdateColumn(s)`), struct values (`Updates(struct)`,
+    `UpdateColumns(struct)`, also with a differently typed value), `Save` — whatever Select/Omit say -/
+theorem C10_never_denied_update (s upd : Schema) (sel om : List Col) (dim sh : Bool) (nz mnz : List Col)
+    (keys : List (Col × Bool)) (f : FieldSpec) (hf : f ∈ s.fields) (hu : f.updatable = false) :
+    f.key ∉ assignmentsOfMap s sel om sh keys ∧
+    f.key ∉ (assignmentsOfStruct s upd sel om dim sh nz mnz).1 ∧
+    f.key ∉ (saveAssignments s sel om nz).1 := by
+  have hd : ∀ sel', (selectAndOmit s sel' om false true).1.lookup f.key = some false :=
+    fun sel' => lookup_denied s sel' om false true f hf (by simp [denies, hu])
+  refine ⟨fun h => C10_map_guarded s sel om sh keys _ h (hd sel),
+          fun h => C10_struct_guarded s upd sel om dim sh nz mnz _ h (hd sel), fun h => ?_⟩
+  exact C10_struct_guarded s s (saveSelects sel) om true false nz nz _ h (hd _)
+
+/-- no column of a field lacking CREATE permission is ever in an INSERT column list the model computes
+    (struct, slice / batch, map, slice of maps) -/
+theorem C10_never_denied_create (s : Schema) (sel om : List Col) (isSlice : Bool) (rows : List (List Col))
+    (keys : List Col) (f : FieldSpec) (hf : f ∈ s.fields) (hc : f.creatable = false) :
+    f.key ∉ createColumns s sel om isSlice rows ∧
+    f.key ∉ createColumnsMap s sel om keys ∧
+    f.key ∉ createColumnsMaps s sel om rows := by
+  have hd := lookup_denied s sel om true false f hf (by simp [denies, hc])
+  refine ⟨fun h => C10_create_guarded s sel om isSlice rows _ h hd,
+          fun h => C10_createmap_guarded s sel om keys _ h hd, fun h => ?_⟩
+  unfold createColumnsMaps at h
+  simp only [List.mem_flatMap] at h
+  rcases h with ⟨r, _, h⟩
+  exact C10_createmap_guarded s sel om r _ h hd
+
+/-- no column of a field lacking CREATE or UPDATE permission is ever in the DO UPDATE SET list that
+    `OnConflict{UpdateAll: true}` (also `Save` of a slice, `Save` falling back to upsert) expands to -/
+theorem C10_never_denied_upsert (s : Schema) (sel om cols : List Col) (hcols : ∀ c ∈ cols, c ∈ s.dbNames)
+    (f : FieldSpec) (hf : f ∈ s.fields) (h : f.creatable = false ∨ f.updatable = false) :
+    f.key ∉ upsertAssignments s sel om cols := by
+  have hd := lookup_denied s sel om true true f hf (by rcases h with h | h <;> simp [denies, h])
+  exact fun hm => C10_upsert_guarded s sel om cols hcols _ hm hd
+
+/-- the INSERT columns the model computes are column names of the schema (so `C10_never_denied_upsert` applies
+    to the real pipeline `upsertAssignments ∘ createColumns`) -/
+theorem C10_create_cols_are_dbNames (s : Schema) (sel om : List Col) (isSlice : Bool) (rows : List (List Col))
+    (hwf : ∀ d ∈ s.defaultDB, d ∈ s.dbNames) : ∀ c ∈ createColumns s sel om isSlice rows, c ∈ s.dbNames := by
+  intro c h
+  unfold createColumns at h
+  simp only [List.mem_append, List.mem_filterMap] at h
+  rcases h with ⟨db, hdb, h⟩ | ⟨db, hdb, h⟩
+  · split at h
+    · cases h
+    · split at h
+      · injection h with h; subst h; exact hdb
+      · cases h
+  · split at h
+    · cases h
+    · rename_i f hf
+      split at h
+      · injection h with h; subst h
+        rw [(byDBName_some hf).2.1]; exact hwf _ hdb
+      · cases h
+
+/-! ### WRITE SET = SPEC (one equation per path) -/
+
+/-- STRUCT PATH (`Updates(struct)`, `UpdateColumns(struct)`, `Save`): the SET list is exactly the columns of the
+    fields that are updatable, are not the primary key serving as row condition (`Dest == Model`), are not
+    omitted, and are selected, or tracked update-time fields of a hook-running update, or — when no
+    restricting Select is present — non-zero.  (`structRule`; Select widens to zero values, Omit removes.) -/
+theorem C10_struct_spec (s : Schema) (hk : KeysDistinct s) (sel om : List Col) (dim sh : Bool) (nz mnz : List Col) :
+    (assignmentsOfStruct s s sel om dim sh nz mnz).1 =
+      ((s.fields.filter fun f => f.dbName != []).filter (structRule s sel om dim sh nz)).map (·.dbName) := by
+  unfold assignmentsOfStruct
+  simp only [Schema.dbNames, List.filterMap_map]
+  rw [← filterMap_if_eq]
+  apply filterMap_congr_mem
+  intro f hf
+  have ⟨hf1, hf2⟩ := List.mem_filter.1 hf
+  have hne : f.dbName ≠ [] := by simpa using hf2
+  simp only [Function.comp, lookUp_self hk hf1 hne, structWrites_eq_rule hk sel om dim sh nz hf1 hne]
+
+/-- struct ⇒ non-zero fields: without Select/Omit a field is written iff it is updatable, not the key used as
+    condition, and non-zero (or a tracked update-time field of a hook-running update) -/
+theorem C10_struct_nonzero (s : Schema) (dim sh : Bool) (nz : List Col) (f : FieldSpec) :
+    structRule s [] [] dim sh nz f =
+      (f.updatable && !(f.primaryKey && dim) && ((!sh && f.autoUpdateTime) || nz.contains f.name)) := by
+  simp [structRule, keysOf, restrictedSpec]
+
+/-- Select widens to zero values: a selected, not omitted field is written whatever its value -/
+theorem C10_select_widens (s : Schema) (sel om : List Col) (dim sh : Bool) (nz : List Col) (f : FieldSpec)
+    (hs : f.dbName ∈ keysOf s sel) (ho : f.dbName ∉ keysOf s om) :
+    structRule s sel om dim sh nz f = (f.updatable && !(f.primaryKey && dim)) := by
+  simp [structRule, hs, ho]
+
+/-- Select narrows: under a restricting Select an unselected, untracked field is not written even when non-zero -/
+theorem C10_select_narrows (s : Schema) (sel om : List Col) (dim sh : Bool) (nz : List Col) (f : FieldSpec)
+    (hr : restrictedSpec sel om = true) (hs : f.dbName ∉ keysOf s sel) (ht : (!sh && f.autoUpdateTime) = false) :
+    structRule s sel om dim sh nz f = false := by
+  simp only [structRule, hs, hr, ht]; simp
+
+/-- Omit removes -/
+theorem C10_omit_removes (s : Schema) (sel om : List Col) (dim sh : Bool) (nz : List Col) (f : FieldSpec)
+    (ho : f.dbName ∈ keysOf s om) : structRule s sel om dim sh nz f = false := by
+  simp [structRule, ho]
+
+/-- Save ⇒ all fields: `Save(&v)` without Select/Omit writes exactly the columns of all updatable fields except
+    the primary key (which is the row condition), zero values included -/
+theorem C10_save_all (s : Schema) (hk : KeysDistinct s) (nz : List Col) :
+    (saveAssignments s [] [] nz).1 =
+      ((s.fields.filter fun f => f.dbName != []).filter fun f => f.updatable && !f.primaryKey).map (·.dbName) := by
+  unfold saveAssignments
+  rw [C10_struct_spec s hk]
+  congr 1
+  apply List.filter_congr
+  intro f hf
+  have ⟨hf1, hf2⟩ := List.mem_filter.1 hf
+  have hne : f.dbName ≠ [] := by simpa using hf2
+  have hm : f.dbName ∈ keysOf s (saveSelects []) := by
+    simp only [saveSelects, keysOf, List.isEmpty_nil, if_true, List.flatMap_cons, List.flatMap_nil, List.append_nil]
+    simp only [resolve, if_true]
+    exact mem_dbNames.2 ⟨f, hf1, hne, rfl⟩
+  have ho : f.dbName ∉ keysOf s [] := by simp [keysOf]
+  simp [structRule, hm, ho]
+
+/-- MAP PATH: every given key is written, zero values included — the model's map branch never looks at the value:
+    a key that names a field with a column is in SET iff that column passes Select/Omit/permission (`allowed`),
+    independently of what value it carries -/
+theorem C10_map_all_keys (s : Schema) (sel om : List Col) (sh : Bool) (keys : List (Col × Bool))
+    (kv : Col × Bool) (hkv : kv ∈ keys) (f : FieldSpec) (hl : s.lookUpField kv.1 = some f) (hne : f.dbName ≠ [])
+    (hd : deniedKey s false true f.dbName = false) (ho : f.dbName ∉ keysOf s om)
+    (hs : f.dbName ∈ keysOf s sel ∨ restrictedSpec sel om = false) :
+    f.dbName ∈ assignmentsOfMap s sel om sh keys := by
+  unfold assignmentsOfMap
+  apply List.mem_append_left
+  rw [List.mem_filterMap]
+  refine ⟨kv, hkv, ?_⟩
+  have ha : allowed (selectAndOmit s sel om false true) f.dbName = true := by
+    rw [allowed_spec]; rcases hs with hs | hs <;> simp [hd, ho, hs]
+  simp [hl, hne, ha]
+
+/-! ### tracked update-time fields -/
+
+/-- refreshed by every hook-running struct update / Save unless omitted (or denied / the key-as-condition) -/
+theorem C10_autotime_struct (s : Schema) (hk : KeysDistinct s) (sel om : List Col) (dim : Bool) (nz mnz : List Col)
+    (f : FieldSpec) (hf : f ∈ s.fields) (hne : f.dbName ≠ []) (ht : f.autoUpdateTime = true)
+    (hu : f.updatable = true) (hpk : f.primaryKey = false) (ho : f.dbName ∉ keysOf s om) :
+    f.dbName ∈ (assignmentsOfStruct s s sel om dim false nz mnz).1 := by
+  rw [C10_struct_spec s hk, List.mem_map]
+  refine ⟨f, ?_, rfl⟩
+  rw [List.mem_filter, List.mem_filter]
+  refine ⟨⟨hf, by simpa using hne⟩, ?_⟩
+  simp [structRule, ht, hu, hpk, ho]
+
+/-- refreshed by every hook-running map update (`Update`, `Updates(map)`) unless omitted or given explicitly -/
+theorem C10_autotime_map (s : Schema) (hk : KeysDistinct s) (sel om : List Col) (keys : List (Col × Bool))
+    (f : FieldSpec) (hf : f ∈ s.fields) (hne : f.dbName ≠ []) (ht : f.autoUpdateTime = true)
+    (hu : f.updatable = true) (ho : f.dbName ∉ keysOf s om)
+    (hn1 : valueNil keys f.name = true) (hn2 : valueNil keys f.dbName = true) :
+    f.dbName ∈ assignmentsOfMap s sel om false keys := by
+  unfold assignmentsOfMap
+  apply List.mem_append_right
+  simp only [Bool.false_eq_true, if_false, List.mem_filterMap]
+  refine ⟨f.dbName, mem_dbNames.2 ⟨f, hf, hne, rfl⟩, ?_⟩
+  have hd : deniedKey s false true f.dbName = false := by
+    rw [← key_of_hasCol hne, deniedKey_self hk false true hf]; simp [denies, hu]
+  have hl : (selectAndOmit s sel om false true).1.lookup f.dbName ≠ some false := by
+    rw [selectAndOmit_lookup]; simp only [hd, ho]
+    by_cases h : f.dbName ∈ keysOf s sel <;> simp [h]
+  simp [lookUp_self hk hf hne, ht, hn1, hn2, hl]
+
+/-- never by the column-update methods unless given explicitly: with `SkipHooks` (`UpdateColumn(s)`) a tracked
+    field is in SET only if it is selected or its value in the struct is non-zero … -/
+theorem C10_autotime_updatecolumns_struct (s : Schema) (hk : KeysDistinct s) (sel om : List Col) (dim : Bool)
+    (nz mnz : List Col) (f : FieldSpec) (hf : f ∈ s.fields)
+    (hm : f.dbName ∈ (assignmentsOfStruct s s sel om dim true nz mnz).1) (hne : f.dbName ≠ []) :
+    f.dbName ∈ keysOf s sel ∨ nz.contains f.name = true := by
+  rw [C10_struct_spec s hk, List.mem_map] at hm
+  rcases hm with ⟨g, hg, hgf⟩
+  rw [List.mem_filter, List.mem_filter] at hg
+  have hgne : g.dbName ≠ [] := by simpa using hg.1.2
+  have : g = f := hk g hg.1.1 f hf (by rw [key_of_hasCol hgne, key_of_hasCol hne, hgf])
+  subst this
+  have hr := hg.2
+  simp only [structRule, Bool.not_true, Bool.false_and, Bool.or_false, Bool.and_eq_true, Bool.or_eq_true,
+    decide_eq_true_eq] at hr
+  rcases hr.2 with h | h
+  · exact Or.inl h
+  · exact Or.inr h.2
+
+/-- … and with a map only if the map itself names it: the auto-update-time block contributes nothing -/
+theorem C10_autotime_updatecolumns_map (s : Schema) (sel om : List Col) (keys : List (Col × Bool)) (c : Col)
+    (hm : c ∈ assignmentsOfMap s sel om true keys) :
+    ∃ kv ∈ keys, (match s.lookUpField kv.1 with
+      | some f => f.dbName = c
+      | none => kv.1 = c) := by
+  unfold assignmentsOfMap at hm
+  simp only [if_true, List.append_nil, List.mem_filterMap] at hm
+  rcases hm with ⟨kv, hkv, h⟩
+  refine ⟨kv, hkv, ?_⟩
+  cases hl : s.lookUpField kv.1 with
+  | none =>
+    rw [hl] at h
+    simp only at h ⊢
+    split at h
+    · injection h
+    · cases h
+  | some f =>
+    rw [hl] at h
+    simp only at h ⊢
+    split at h
+    · split at h
+      · injection h
+      · cases h
+    · cases h
+
+/-! ### the primary key as row condition -/
+
+/-- when the updating value is the model itself (`Save(&v)`, `Model(&v).Updates(&v)`) the primary key is never in
+    SET — it is the row condition (`C10_pk_is_condition`) -/
+theorem C10_pk_not_in_set (s : Schema) (hk : KeysDistinct s) (sel om : List Col) (sh : Bool) (nz mnz : List Col)
+    (f : FieldSpec) (hf : f ∈ s.fields) (hne : f.dbName ≠ []) (hpk : f.primaryKey = true) :
+    f.dbName ∉ (assignmentsOfStruct s s sel om true sh nz mnz).1 := by
+  intro hm
+  rw [C10_struct_spec s hk, List.mem_map] at hm
+  rcases hm with ⟨g, hg, hgf⟩
+  rw [List.mem_filter, List.mem_filter] at hg
+  have hgne : g.dbName ≠ [] := by simpa using hg.1.2
+  have : g = f := hk g hg.1.1 f hf (by rw [key_of_hasCol hgne, key_of_hasCol hne, hgf])
+  subst this
+  have hr := hg.2
+  simp [structRule, hpk] at hr
+
+theorem C10_pk_is_condition (s : Schema) (hk : KeysDistinct s) (sel om : List Col) (sh : Bool) (nz mnz : List Col)
+    (f : FieldSpec) (hf : f ∈ s.fields) (hne : f.dbName ≠ []) (hpk : f.primaryKey = true)
+    (hnz : nz.contains f.name = true) :
+    f.dbName ∈ (assignmentsOfStruct s s sel om true sh nz mnz).2 := by
+  unfold assignmentsOfStruct
+  simp only [if_true, List.mem_filterMap]
+  have hnz' : f.name ∈ nz := by simpa using hnz
+  exact ⟨f.dbName, mem_dbNames.2 ⟨f, hf, hne, rfl⟩, by simp [lookUp_self hk hf hne, hpk, hnz']⟩
+
+/-! ### exactly the targeted rows: `Save` and the chain's conditions (finding F18) -/
+
+/-- FINDING F18 (counterexample, kernel-checked): `Where(cond).Save(&v)` writes the existing row carrying v's key
+    although that row does not satisfy `cond` (0-row UPDATE ⇒ upsert fallback ignores the conditions) -/
+theorem C10_save_rows_counterexample : saveWritesRow true false false = true := by decide
+
+/-- outside the pattern of F18 (the row satisfies the conditions, or a Select is present, or no such row exists)
+    `Save` writes the row carrying the key only if it exists and satisfies the chain's conditions -/
+theorem C10_save_rows_partial (rowExists condHolds selectedUpdate : Bool)
+    (hpat : ¬ (rowExists = true ∧ condHolds = false ∧ selectedUpdate = false))
+    (hw : saveWritesRow rowExists condHolds selectedUpdate = true) : rowExists = true ∧ condHolds = true := by
+  revert hpat hw
+  cases rowExists <;> cases condHolds <;> cases selectedUpdate <;> simp [saveWritesRow]
+
+/-! ### non-vacuity and concrete instances (kernel-evaluated) -/
+
+def exSchema : Schema :=
+  { table := "t".toList,
+    fields := [
+      ⟨"ID".toList, "id".toList, true, true, true, true, false, false, true, false, false⟩,
+      ⟨"Name".toList, "name".toList, false, true, true, true, false, false, false, false, false⟩,
+      ⟨"NoUpd".toList, "no_upd".toList, false, true, false, true, false, false, false, false, false⟩,
+      ⟨"Ign".toList, [], false, false, false, false, false, false, false, false, false⟩,
+      ⟨"UpdatedAt".toList, "updated_at".toList, false, true, true, true, false, true, false, false, false⟩],
+    rels := [], defaultDB := ["id".toList] }
+
+example : KeysDistinct exSchema := by
+  intro f hf g hg h
+  simp only [exSchema, List.mem_cons, List.not_mem_nil, or_false] at hf hg
+  rcases hf with rfl | rfl | rfl | rfl | rfl <;> rcases hg with rfl | rfl | rfl | rfl | rfl <;>
+    first | rfl | (exfalso; revert h; decide)
+
+/-- `Model(&T{ID:1}).Select("NoUpd","Name").Updates(T{Name:"x", NoUpd:3})` → `SET name, updated_at WHERE id` -/
+example : assignmentsOfStruct exSchema exSchema ["NoUpd".toList, "Name".toList] [] false false
+    ["Name".toList, "NoUpd".toList] ["ID".toList] = (["name".toList, "updated_at".toList], ["id".toList]) := by decide
+
+/-- `Model(&T{ID:1}).UpdateColumn("no_upd", 1)` writes nothing; `Update("no_upd", 1)` only refreshes `updated_at` -/
+example : assignmentsOfMap exSchema [] [] true [("no_upd".toList, false)] = [] ∧
+    assignmentsOfMap exSchema [] [] false [("no_upd".toList, false)] = ["updated_at".toList] := by decide
+
+example : permOfTags [("<-".toList, "create".toList)] = ⟨true, false, true, false⟩ ∧
+    permOfTags [("->".toList, "->".toList)] = ⟨false, false, true, false⟩ ∧
+    permOfTags [("-".toList, "-".toList)] = ⟨false, false, false, false⟩ ∧
+    permOfTags [("->".toList, "false".toList), ("<-".toList, "create".toList)] = ⟨true, false, false, false⟩ := by decide
+
+example : matchName "`t`.`name`".toList = ("t".toList, "name".toList) ∧ matchName "t.*".toList = ("t".toList, star) ∧
+    matchName "name desc".toList = ([], []) := by decide
 
 end Gorm
